@@ -419,13 +419,15 @@ def scale(R: vlib.Run):
     d = os.path.join(vlib.SCRATCH, f"c06s_{os.getpid()}")
     os.makedirs(d, exist_ok=True)
     try:
-        for nbits, nch, N, splits in ((8, 4, 70000, [40000]), (2, 8, 50000, []), (32, 2, 40000, [16384]), (8, 1024, 20000, [])):
+        # the last two sets: ascending band (law delays < 0, referred to the earliest channel) and a single channel
+        for nbits, nch, N, splits, asc in ((8, 4, 70000, [40000], 0), (2, 8, 50000, [], 0), (32, 2, 40000, [16384], 0), (8, 1024, 20000, [], 0),
+                                           (8, 4, 40000, [25000], 1), (8, 1, 40000, [], 0)):
             x = nprng.integers(0, min(1 << nbits, 64), (N, nch), dtype=np.uint8)   # every float32 sum stays below 2**24: exact
-            paths = filutil.write_fil_set(os.path.join(d, f"s{nbits}_{nch}"), x, nbits, splits, fch1=400.0, foff=-200.0 / nch, tsamp=0.001)
+            paths = filutil.write_fil_set(os.path.join(d, f"s{nbits}_{nch}_{asc}"), x, nbits, splits, fch1=200.0 + 200.0 / nch if asc else 400.0,
+                                          foff=200.0 / nch if asc else -200.0 / nch, tsamp=0.001)
             fil = FilReader(paths)
-            dm = next((float(v) for v in np.linspace(0.5, 400, 200) if 1000 < int(fil.header.get_dmdelays(float(v)).max()) < 3000), 1.0)
-            delays = fil.header.get_dmdelays(dm).astype(int)
-            md = int(delays.max())
+            dm = next((float(v) for v in np.linspace(0.5, 400, 200) if 1000 < norm_delays(fil, float(v))[2] < 3000), 1.0)
+            raw_delays, delays, md = norm_delays(fil, dm)
             for start, nsamps in ((0, N), (1234, N - 5000), (N - 17000, 17000)):
                 want = x[start:start + nsamps].astype(np.float64)
                 tim = want.sum(1); bp = want.mean(0)
@@ -434,10 +436,10 @@ def scale(R: vlib.Run):
                 for c in range(nch):
                     wantd += want[delays[c]:delays[c] + outlen, c]
                 for gulp in (16384, 1000, 20000, 65536, 4097):
-                    base = {"nbits": nbits, "nchans": nch, "N": N, "splits": splits, "start": start, "nsamps": nsamps, "gulp": gulp,
+                    base = {"nbits": nbits, "nchans": nch, "N": N, "splits": splits, "ascending_band": asc, "start": start, "nsamps": nsamps, "gulp": gulp,
                             "data": f"numpy.random.default_rng({R.seed + 606}) stream, see props/c06.py scale()"}
                     R.tick(base)
-                    R.case(("scale", nbits, nch, start, nsamps, gulp), regime="scale")
+                    R.case(("scale", nbits, nch, asc, start, nsamps, gulp), regime="scale")
                     k, r = call(fil.collapse, gulp=gulp, start=start, nsamps=nsamps, quiet=True)
                     if k != "ok" or r.data.shape != tim.shape or not np.array_equal(r.data, tim):
                         R.fail("scale-collapse", "collapse at scale differs from the per-sample channel sums", dict(base, exc=r if k != "ok" else None))
@@ -451,6 +453,28 @@ def scale(R: vlib.Run):
                     k, r = call(fil.dedisperse, dm, gulp=gulp, start=start, nsamps=nsamps, quiet=True)
                     if k != "ok" or r.data.shape != (outlen,) or not np.array_equal(r.data, wantd):
                         R.fail("scale-dedisperse", "dedisperse at scale differs from sum_c x[t+d_c][c]", dict(base, dm=dm, maxdelay=md, exc=r if k != "ok" else None))
+                    if gulp == 4097:      # the default gulp (argument omitted): more than one block at this size
+                        R.case(("scale-default", nbits, nch, asc, start, nsamps), regime="scale")
+                        dbase = dict(base, gulp="default")
+                        k, r = call(fil.collapse, start=start, nsamps=nsamps, quiet=True)
+                        if k != "ok" or r.data.shape != tim.shape or not np.array_equal(r.data, tim):
+                            R.fail("scale-default-gulp", "collapse at scale with the default gulp differs from the per-sample channel sums", dict(dbase, api="collapse", exc=r if k != "ok" else None))
+                        k, r = call(fil.bandpass, start=start, nsamps=nsamps, quiet=True)
+                        if k != "ok" or r.data.shape != bp.shape or not np.allclose(r.data, bp, rtol=1e-5, atol=1e-5):
+                            R.fail("scale-default-gulp", "bandpass at scale with the default gulp differs from the per-channel means", dict(dbase, api="bandpass", exc=r if k != "ok" else None))
+                        k, r = call(fil.read_chan, ich, start=start, nsamps=nsamps, quiet=True)
+                        if k != "ok" or r.data.shape != (nsamps,) or not np.array_equal(r.data, want[:, ich]):
+                            R.fail("scale-default-gulp", "read_chan at scale with the default gulp differs from the channel's column", dict(dbase, api="read_chan", ichan=ich, exc=r if k != "ok" else None))
+                        k, r = call(fil.dedisperse, dm, start=start, nsamps=nsamps, quiet=True)
+                        if k != "ok" or r.data.shape != (outlen,) or not np.array_equal(r.data, wantd):
+                            R.fail("scale-default-gulp", "dedisperse at scale with the default gulp differs from sum_c x[t+d_c][c]", dict(dbase, api="dedisperse", dm=dm, maxdelay=md, exc=r if k != "ok" else None))
+                        if nch <= 8:
+                            k, r = call(fil.compute_stats_basic, start=start, nsamps=nsamps, quiet=True)
+                            st = fil.chan_stats if k == "ok" else None
+                            if (k != "ok" or not np.array_equal(st.moments["count"], np.full(nch, nsamps)) or not np.array_equal(st.maxima, want.max(0))
+                                    or not np.array_equal(st.minima, want.min(0)) or not np.allclose(st.mean, want.mean(0), rtol=1e-4, atol=1e-4)
+                                    or not np.allclose(st.var, want.var(0), rtol=1e-3, atol=1e-3)):
+                                R.fail("scale-default-gulp", "compute_stats_basic at scale with the default gulp differs from the moments of the selected samples", dict(dbase, api="compute_stats_basic", exc=r if k != "ok" else None))
                     if nch <= 8 and gulp in (16384, 4097):
                         k, r = call(fil.compute_stats, gulp=gulp, start=start, nsamps=nsamps, quiet=True)
                         st = fil.chan_stats if k == "ok" else None
